@@ -41,6 +41,7 @@ package api
 //@
 //@ func withRandomDistribution
 //@   props C12
+//@   modifies G12R, G12E
 //@   requires rateFn != nil && randFn != nil
 //@   ghost before call Milliseconds #0 : G12R = 0 ; G12E = 0
 //@   ensures [passthrough] iterationDuration <= 100000000 ==> result.0 == iterationDuration && result.1 == rateFn
@@ -67,7 +68,7 @@ package api
 //@   ghost before call (*PoolManager).NewTriggerPool : assert [concurrency] arg1 == opts.Concurrency && arg0 == workers
 //@   ghost before call (*TriggerPool).Trigger : assert [unchanged] arg2 == G9last ; assert [one-per-evaluation] G9trig == G9evals - 1 ; G9trig = G9trig + 1
 //@   ghost before call time.NewTicker : assert [ticker-after-first-evaluation] G9evals == 1 && G9trig == 1 ; assert [period] arg0 == iterationDuration ; G9tickerMade = true
-//@   loop 0 invariant G9evals == 1 + G9ticks && G9trig == G9evals && G9tickerMade
+//@   loop 0 invariant G9evals == 1 + G9ticks && G9trig == G9evals && G9tickerMade && wfTriggerPool(pool) && workerCtx != nil
 //@   ensures [cadence] G9evals == 1 + G9ticks && G9trig == G9evals && G9tickerMade
 //@
 //@ // A ticker of period d has delivered at most floor(e/d) values by time e after its creation (trusted time.Ticker
@@ -80,6 +81,7 @@ package api
 //@
 //@ func NewIterationWorker
 //@   props C09 C14
+//@   modifies nothing
 //@   requires rate != nil && iterationDuration > 0
 //@   ensures result != nil
 //@
@@ -124,6 +126,7 @@ package api
 //@
 //@ func WithJitter
 //@   props C13 C10 C14
+//@   modifies nothing
 //@   requires rate != nil
 //@   requires GJclaim == 1 ==> (multiple == 0.0 || (jitterConsts(multiple) && GJin == GJout))
 //@   ensures [identity] multiple == 0.0 ==> result == rate
@@ -139,12 +142,14 @@ package api
 //@ // ---- C14 / C12: distribution selection
 //@ func withRegularDistribution
 //@   props C12 C14
+//@   modifies nothing
 //@   requires rateFn != nil
 //@   ensures [passthrough] iterationDuration <= 100000000 ==> result.0 == iterationDuration && result.1 == rateFn
 //@   ensures [subtick] iterationDuration > 100000000 ==> result.0 == 100000000 && result.1 != nil
 //@
 //@ func NewDistribution
 //@   props C12 C14
+//@   modifies G12R, G12E
 //@   requires rateFn != nil
 //@   ensures [positive] result.2 == nil ==> result.0 > 0 && result.1 != nil
 //@   ensures [nonpositive] iterationDuration <= 0 ==> result.2 != nil
